@@ -396,14 +396,8 @@ func (s *pState) flush(cw *cwriter.Writer, height int, iter <-chan *Bar) error {
 			err = frame.err
 			continue
 		}
-		var usedRows int
 		for i := len(frame.rows) - 1; i >= 0; i-- {
-			if row := frame.rows[i]; len(rows) < height {
-				rows = append(rows, row)
-				usedRows++
-			} else {
-				_, _ = io.Copy(io.Discard, row)
-			}
+			rows = append(rows, frame.rows[i])
 		}
 
 		switch frame.shutdown {
@@ -426,7 +420,7 @@ func (s *pState) flush(cw *cwriter.Writer, height int, iter <-chan *Bar) error {
 			}
 		case 2:
 			if s.popCompleted && !frame.noPop {
-				popCount += usedRows
+				popCount += len(frame.rows)
 				continue
 			}
 			fallthrough
@@ -438,6 +432,20 @@ func (s *pState) flush(cw *cwriter.Writer, height int, iter <-chan *Bar) error {
 	s.pushPending(pending)
 	if err != nil {
 		return err
+	}
+
+	// Too many rows for the screen: the top-most ones go, except those of the
+	// bars popped in this frame, which are drawn here for the last time and
+	// have to stay on screen.
+	if over := len(rows) - height; over > 0 {
+		top := len(rows) - popCount
+		if over > top {
+			over = top
+		}
+		for _, row := range rows[top-over : top] {
+			_, _ = io.Copy(io.Discard, row)
+		}
+		rows = append(rows[:top-over], rows[top:]...)
 	}
 
 	for i := len(rows) - 1; i >= 0; i-- {
